@@ -85,6 +85,42 @@ theorem store_completes (kind : Kind) (e : Entry) (hd : Dom kind e) (fs : Fs) (p
   refine ⟨(read_isSome_iff fs' cpv).mp ?_, hname⟩
   rw [show fs'.read cpv = _ from hfin.1]; rfl
 
+/-- **a store that fails keeps the previous entry**: whichever os-level call of the store reports an error
+(or the rendering raises) and whether or not the temp file gets cleaned up, at every point of what `_setitem`
+then does every path other than the temp file is unchanged — so `cache[cpv]` still returns the previous
+complete entry (or is still absent) and `keys()` lists exactly what it listed before. -/
+theorem store_failure_keeps_old (kind : Kind) (fs : Fs) (pid cpv : Str) (gid : Int) (mkdirs chunks : List Str)
+    (hpid : '/' ∉ pid) (k : Nat) (cleanup : Bool) (n : Nat) :
+    let fs' := run ((failedStoreOps pid cpv gid mkdirs chunks k cleanup).take n) fs
+    (∀ q, q ≠ tmpOf pid cpv → fs'.read q = fs.read q) ∧
+    getItem kind fs' cpv = getItem kind fs cpv ∧
+    (∀ p, p ∈ keys fs' ↔ p ∈ keys fs) := by
+  intro fs'
+  have hops : ∀ q, q ≠ tmpOf pid cpv → ∀ op ∈ failedStoreOps pid cpv gid mkdirs chunks k cleanup, touches op q = false := by
+    intro q hq op hop
+    unfold failedStoreOps at hop
+    rw [storeOps_eq, List.dropLast_concat] at hop
+    simp only [List.mem_append] at hop
+    rcases hop with hop | hop
+    · exact storePrep_untouched pid cpv gid mkdirs chunks q hq op (List.mem_of_mem_take hop)
+    · have hne : (tmpOf pid cpv == q) = false := by simpa using fun e => hq e.symm
+      cases cleanup <;> simp at hop
+      subst hop; simp [touches, hne]
+  have hun : ∀ q, q ≠ tmpOf pid cpv → fs'.read q = fs.read q := fun q hq =>
+    run_untouched _ fs q (fun op hop => hops q hq op (List.mem_of_mem_take hop))
+  refine ⟨hun, ?_, ?_⟩
+  · unfold getItem; rw [hun cpv (tmpOf_ne pid cpv hpid).symm]
+  · intro p
+    simp only [keys, List.mem_filter]
+    by_cases hp : p = tmpOf pid cpv
+    · subst hp; rw [tmpOf_not_listed pid cpv hpid]; simp
+    · have h := hun p hp
+      constructor
+      · intro ⟨hm, hok⟩
+        exact ⟨(read_isSome_iff fs p).mp (h ▸ (read_isSome_iff fs' p).mpr hm), hok⟩
+      · intro ⟨hm, hok⟩
+        exact ⟨(read_isSome_iff fs' p).mp (h.symm ▸ (read_isSome_iff fs p).mpr hm), hok⟩
+
 /-! ### the hypotheses are satisfiable -/
 
 def exampleEntry : Entry :=
